@@ -75,6 +75,27 @@ Definition parse_fd (path : bytes) : option Z :=
   | _ => None
   end.
 
+(* openat(dirfd -> d, name, O_PATH|O_NOFOLLOW) for a single component, on a tree *)
+Definition open1 (f : fs) (d : nat) (name : bytes) : nat + N :=
+  if negb (FSModel.is_dir f d) then inr ENOTDIR
+  else if is_dot name then inl d
+  else if is_dotdot name then inl (FSModel.parent_of f d)
+  else match FSModel.lookup f d name with
+       | Some c => inl c
+       | None => inr (FSModel.name_err name)
+       end.
+
+(* the static part of a procfs instance, as much of it as as_unsafe_path walks through:
+   0 = /proc, 1 = thread-self (a symlink), 2 = /proc/1, 3 = task, 4 = the thread's own
+   directory, 5 = its fd directory (whose entries, one magic-link per open descriptor,
+   are dynamic and handled in [psem_open]) *)
+Definition PFS : fs := FSModel.build
+  [FSModel.MkLnk [b "thread-self"] (b "1/task/1"); FSModel.MkDir [b "1"]; FSModel.MkDir [b "1"; b "task"];
+   FSModel.MkDir [b "1"; b "task"; b "1"]; FSModel.MkDir [b "1"; b "task"; b "1"; b "fd"]].
+Definition NP : nat := 6.
+Definition parse_dec (name : bytes) : option Z :=
+  if beq (dec (num name)) name then Some (Z.of_N (num name)) else None.
+
 Definition PROC_MNT := 7.     (* mount id of the procfs instance behind the handle *)
 Definition FS_MNT := 3.       (* mount id of the file system the root lives on *)
 
@@ -87,8 +108,11 @@ Variable rootpath : bytes.
    calling thread's directory, and one magic-link per open descriptor.  Objects of
    the tree are numbered below [PB]; procfs objects from [PB] on. *)
 Definition PB : nat := length (FSModel.kinds s).
-Definition P_THREAD : nat := S PB.
-Definition P_LINK (target : nat) : nat := S (S PB) + target.
+Definition P_THREAD : nat := PB + 4.
+Definition P_FDDIR : nat := PB + 5.
+Definition P_LINK (target : nat) : nat := PB + NP + target.
+Definition obj_is_dir (o : nat) : bool :=
+  if Nat.leb PB o then Nat.ltb (o - PB) NP && FSModel.is_dir PFS (o - PB) else FSModel.is_dir s o.
 
 Definition render (exp : list bytes) : bytes := fold_left (fun acc c => acc ++ SLASH :: c) exp rootpath.
 
@@ -117,17 +141,20 @@ Definition mode_of (k : FSModel.kind) : N :=
   | FSModel.KFifo => S_IFIFO | FSModel.KSock => S_IFSOCK | FSModel.KChr => S_IFCHR
   end.
 
-(* openat(dirfd -> d, name, O_PATH|O_NOFOLLOW) for a single component *)
-Definition sem_open (d : nat) (name : bytes) : nat + N :=
-  if negb (FSModel.is_dir s d) then inr ENOTDIR
-  else if is_dot name then inl d
-  else if is_dotdot name then inl (FSModel.parent_of s d)
-  else match FSModel.lookup s d name with
-       | Some c => inl c
-       | None => inr (FSModel.name_err name)
-       end.
+Definition sem_open (d : nat) (name : bytes) : nat + N := open1 s d name.
 
 Definition opath_nofollow (flags : N) : bool := has flags O_PATH && has flags O_NOFOLLOW.
+
+(* a single component below a procfs object (numbered k = o - PB) *)
+Definition psem_open (t : fdt) (k : nat) (name : bytes) : nat + N :=
+  if Nat.eqb k 5 then
+    match parse_dec name with
+    | Some n => match tget t n with Some target => inl (P_LINK target) | None => inr ENOENT end
+    | None => inr ENOENT
+    end
+  else if Nat.ltb k NP then
+    match open1 PFS k name with inl c => inl (PB + c)%nat | inr e => inr e end
+  else inr ENOTDIR.
 
 (* what the kernel does for one call: allocate a descriptor for an object,
    answer, or release a descriptor.  ENOSYS marks "outside this model". *)
@@ -140,14 +167,17 @@ Definition sem (t : fdt) (c : call) : sresp :=
       | None => SRet (RErr (if Z.eqb fd AT_FDCWD then ENOSYS else EBADF))
       | Some d =>
           if negb (opath_nofollow flags) || has_slash path || has_nul path then SRet (RErr ENOSYS)
-          else match sem_open d path with inl o => SNew o | inr e => SRet (RErr e) end
+          else match (if Nat.leb PB d then psem_open t (d - PB) path else sem_open d path) with
+               | inl o => if has flags O_DIRECTORY && negb (obj_is_dir o) then SRet (RErr ENOTDIR) else SNew o
+               | inr e => SRet (RErr e)
+               end
       end
   | Fstatat fd path _ =>
       if Z.eqb fd AT_FDCWD then SRet (RStat S_IFDIR 0 0 0)        (* FrozenFd's probes of the host /proc *)
       else match tget t fd with
            | None => SRet (RErr EBADF)
            | Some o => if is_nil path then
-                         SRet (RStat (if Nat.leb PB o then (if Nat.leb (S (S PB)) o then S_IFLNK else S_IFDIR)
+                         SRet (RStat (if Nat.leb PB o then (if obj_is_dir o then S_IFDIR else S_IFLNK)
                                       else mode_of (FSModel.kind_of s o)) 0 (N.of_nat o) 0)
                        else if Nat.eqb o PB && beq path (b "thread-self") then SRet (RStat S_IFLNK 0 0 0)
                        else SRet (RErr ENOSYS)
@@ -182,10 +212,15 @@ Definition sem (t : fdt) (c : call) : sresp :=
                   else match FSModel.link_body s o with
                        | Some body => SRet (RBytes body)
                        | None =>
-                           (* a procfs fd/N magic-link: the path of the object descriptor N is open on *)
-                           if Nat.leb (S (S PB)) o then
-                             match find_path (o - S (S PB)) with
+                           if Nat.leb (PB + NP) o then
+                             (* a procfs fd/N magic-link: the path of the object descriptor N is open on *)
+                             match find_path (o - (PB + NP)) with
                              | Some exp => SRet (RBytes (render exp))
+                             | None => SRet (RErr ENOENT)
+                             end
+                           else if Nat.leb PB o then
+                             match FSModel.link_body PFS (o - PB) with
+                             | Some body => SRet (RBytes body)
                              | None => SRet (RErr ENOENT)
                              end
                            else SRet (RErr ENOENT)
